@@ -849,6 +849,12 @@ func (g *tkGen) transfer(hostileActor bool) (rig.Tx, bool) {
 	if len(g.prev[t.Symbol]) > 2 {
 		tag.Var = "after->2-transfers"
 	}
+	if rng.Intn(8) == 0 {
+		// the other valid spelling of the same account (all upper case)
+		dst = strings.ToUpper(dst)
+		tag.Rcpt += "/upper-case"
+		g.run.Count("new-owner-spelled-in-upper-case", 1)
+	}
 	return g.mk(a, tag, &v1.MsgTransferTokenOwner{SrcOwner: a.Addr.String(), DstOwner: dst, Symbol: t.Symbol})
 }
 
@@ -1473,7 +1479,7 @@ func (d *tkC09) accepted(br *rig.BlockRecord, tx *rig.TxRecord, tag *tkTag, pre,
 			run.Count("owner-after-2-transfers-ok", 1)
 		}
 		mt.Prev = append(mt.Prev, mt.Owner)
-		mt.Owner = msg.DstOwner
+		mt.Owner = htCanonAddr(msg.DstOwner)
 		d.g.prev[msg.Symbol] = append([]string{}, mt.Prev...)
 		run.Class("transfer", tag.Var, tag.Rcpt)
 	case *banktypes.MsgSend:
